@@ -7,6 +7,7 @@ import Oracle.ClaimEngine
 import Oracle.FsPathEngine
 import Oracle.TokenEngine
 import Oracle.CcbEngine
+import Oracle.CancelEngine
 
 def main (args : List String) : IO UInt32 := do
   match args with
@@ -19,6 +20,7 @@ def main (args : List String) : IO UInt32 := do
   | ["fspath"] => Oracle.FsPathEngine.run; return 0
   | ["token"] => Oracle.TokenEngine.run; return 0
   | ["ccb"] => Oracle.CcbEngine.run; return 0
+  | ["cancel"] => Oracle.CancelEngine.run; return 0
   | _ =>
     IO.eprintln "usage: cedar_oracle <engine>   (one op per stdin line, one reply per line)"
     return 2
